@@ -272,3 +272,59 @@ fn c11_aggregates_avg_and_float_sum() {
     kani::cover!(f.is_nan());
     std::mem::forget(r);
 }
+
+//@ property: C12
+//@ tier: quick
+//@ cap_s: 300
+//@ mem_gb: 8
+//@ unwindset: ^std::ptr::drop_glue::<:1; ^std::ptr::drop_in_place::<:1; as std::clone::Clone>::clone$:1; drop_slow$:1
+//@ encodes: AggregateState::{new,update} for Sum on Int64 values (aggregate.rs SumInt arm, via hook H13)
+//@ symbolic: the second summand (all i64); the first is i64::MAX, respectively i64::MIN (concrete, so that the state's variant stays known to the symbolic executor)
+//@ bound: two rows per group; the result value itself is not inspected here (finalize on a symbolic state variant explores the sorting percentile arms: optional thorough harnesses)
+//@ oracle: feeding an integer SUM values whose exact sum leaves i64 never panics (guards the repair of the unchecked `+=`; dev-profile semantics: overflow checks on)
+#[kani::proof]
+#[kani::unwind(4)]
+fn c12_sum_extreme_ints_never_panics() {
+    let b: i64 = kani::any();
+    let mut s = VerifAggregateState::new(AggregateFunction::Sum);
+    s.update(Some(Value::Int64(i64::MAX)));
+    s.update(Some(Value::Int64(b)));
+    std::mem::forget(s);
+    let mut t = VerifAggregateState::new(AggregateFunction::Sum);
+    t.update(Some(Value::Int64(i64::MIN)));
+    t.update(Some(Value::Int64(b)));
+    std::mem::forget(t);
+    kani::cover!(b > 0);
+    kani::cover!(b < 0);
+}
+
+//@ property: C11
+//@ tier: quick
+//@ cap_s: 300
+//@ mem_gb: 8
+//@ unwindset: ^std::ptr::drop_glue::<:1; ^std::ptr::drop_in_place::<:1; as std::clone::Clone>::clone$:1; drop_slow$:1
+//@ encodes: AggregateState::{new,update,finalize} for Count, CountNonNull, Min, Max, First, Last (aggregate.rs, via hook H13), aggregate.rs compare_values
+//@ symbolic: two Int64 values (all i64)
+//@ bound: groups of 2 rows, Int64 values, no DISTINCT (aggregates whose state variant does not change while folding)
+//@ oracle: count(*) = number of rows fed; count(x) = 2; min / max / first / last = their definitions
+#[kani::proof]
+#[kani::unwind(4)]
+fn c11_count_min_max_first_last_of_two() {
+    let (a, b): (i64, i64) = (kani::any(), kani::any());
+    macro_rules! two { ($f:expr) => {{ let mut s = VerifAggregateState::new($f); s.update(Some(Value::Int64(a))); s.update(Some(Value::Int64(b))); let r = s.finalize(); std::mem::forget(s); r }}; }
+    let mut c = VerifAggregateState::new(AggregateFunction::Count);
+    c.update(None); c.update(None);
+    let rc = c.finalize();
+    assert!(matches!(rc, Value::Int64(2)), "count(*) is not the number of rows");
+    let c0 = VerifAggregateState::new(AggregateFunction::Count);
+    let r0 = c0.finalize();
+    assert!(matches!(r0, Value::Int64(0)), "count(*) of no rows is not 0");
+    let r = two!(AggregateFunction::CountNonNull); assert!(matches!(r, Value::Int64(2)), "count(x) is not the number of values"); std::mem::forget(r);
+    let r = two!(AggregateFunction::Min); assert!(matches!(r, Value::Int64(x) if x == if a <= b { a } else { b }), "min is not the minimum"); std::mem::forget(r);
+    let r = two!(AggregateFunction::Max); assert!(matches!(r, Value::Int64(x) if x == if a >= b { a } else { b }), "max is not the maximum"); std::mem::forget(r);
+    let r = two!(AggregateFunction::First); assert!(matches!(r, Value::Int64(x) if x == a), "first is not the first value"); std::mem::forget(r);
+    let r = two!(AggregateFunction::Last); assert!(matches!(r, Value::Int64(x) if x == b), "last is not the last value"); std::mem::forget(r);
+    kani::cover!(a > b);
+    kani::cover!(a < b);
+    std::mem::forget((c, rc, c0, r0));
+}
